@@ -145,6 +145,19 @@ def gen_workload(rng, profile=None, kinds=('dna', 'rna', 'protein'), weights=Non
         psub = rng.choice([0.02, 0.1, 0.25]); pindel = rng.choice([0.0, 0.01, 0.03])
     elif profile == 'ratio':
         n, L = rng.randint(3, 10), rng.randint(150, 900)
+    elif profile == 'boundary':
+        # sizes at the switches and buffer sizes of the implementation: 100 sequences (UPGMA/k-means), 500 columns
+        # (serial/parallel Hirschberg), 256/384/512/576 (DP and path buffers), 512 (sequence buffers), 60 (blocks)
+        n = rng.choice([2, 3, 4, 8, 98, 99, 100, 101, 102, 128])
+        L = rng.choice([1, 2, 3, 59, 60, 61, 119, 120, 121, 254, 255, 256, 257, 383, 384, 385, 498, 499, 500, 501, 502, 511, 512, 513, 575, 576, 577, 1023, 1024, 1025])
+        if n >= 98 and L > 260:
+            L = rng.choice([59, 60, 61, 119, 120, 121, 255, 256, 257])
+        shape = rng.choice(['star', 'balanced', 'twoclusters'])
+        psub = rng.choice([0.0, 0.05, 0.2]); pindel = rng.choice([0.0, 0.0, 0.01])
+    elif profile == 'manylines':
+        # more than 1024 output lines in Clustal/MSF (line-buffer growth) and hundreds of rows per block
+        n, L = rng.randint(150, 420), rng.randint(130, 300)
+        shape = rng.choice(['star', 'clusters']); psub = rng.choice([0.05, 0.2]); pindel = rng.choice([0.0, 0.01])
     elif profile == 'many':
         # several hundred short sequences: groups of more than 256 members, deep k-means recursion, > 512 leaves
         n, L = rng.randint(258, 720), rng.randint(6, 22)
@@ -169,6 +182,10 @@ def gen_workload(rng, profile=None, kinds=('dna', 'rna', 'protein'), weights=Non
     if profile == 'ratio':
         for _ in range(rng.randint(1, 2)):
             seqs[rng.randrange(n)] = rand_seq(rng, alpha, rng.randint(1, 4))
+    if profile == 'boundary' and rng.random() < 0.25:
+        seqs = [seqs[0]] * n                      # all identical
+    if profile == 'boundary' and rng.random() < 0.1:
+        seqs = [('N' if kind != 'protein' else 'X') * len(x) for x in seqs]      # all-ambiguous residues
     if profile == 'dups' or rng.random() < 0.1:
         for _ in range(rng.randint(1, max(1, n // 2))):
             seqs[rng.randrange(n)] = seqs[rng.randrange(n)]
